@@ -413,7 +413,7 @@ class SparselyBin(Factory, Container):
                     if bin is None:
                         bin = self.value.zero()
                         self.bins[index] = bin
-                    if n_dim == 1:
+                    if n_dim == 1 or isinstance(data, dict):
                         # passing on the full array is faster for one-dim histograms
                         np.not_equal(q, index, selection)
                         subweights[:] = weights
